@@ -5,7 +5,9 @@
      - a channel object copies its gateway's pair when it is created (newchannel / remote_exec locally, unserialisation
        of a channel or the first RECONFIGURE frame for that id remotely);
      - Channel.reconfigure sets the local channel's pair and, by a RECONFIGURE frame with the channel id, the peer channel's;
-     - an item is decoded when its DATA frame is dispatched, with the pair of the receiving channel at that moment.
+     - an item is decoded when its DATA frame is dispatched, with the pair of the receiving channel at that moment;
+     - setcallback stores the channel's pair with the callback; it is used only once the channel object is gone
+       (the initiator dropped it: LAST_MESSAGE, the peer goes on sending) - while the object lives its current pair wins.
 
    Channels: "c" (a remote_exec channel, exists on both sides from the start), "d" (created by L with newchannel and sent
    to R over c, where unserialising it creates R's end).  Sides "L" (initiator) and "R" (worker).
@@ -17,15 +19,21 @@ EXTENDS Integers, Sequences, FiniteSets, TLC
 Default == <<TRUE, FALSE>>
 Unborn == <<>>
 Init0 == [gw |-> [s \in {"L", "R"} |-> Default],
-          ch |-> [s \in {"L", "R"} |-> [c \in {"c", "d"} |-> IF c = "c" THEN Default ELSE Unborn]]]
+          ch |-> [s \in {"L", "R"} |-> [c \in {"c", "d"} |-> IF c = "c" THEN Default ELSE Unborn]],
+          cbk |-> [s \in {"L", "R"} |-> [c \in {"c", "d"} |-> Unborn]],      \* the pair stored with the callback (Unborn: no callback)
+          dead |-> [s \in {"L", "R"} |-> [c \in {"c", "d"} |-> FALSE]]]      \* the channel object was dropped (callback left behind)
 Other(s) == IF s = "L" THEN "R" ELSE "L"
 
 GwReconf(st, cfg) == [st EXCEPT !.gw = [s \in {"L", "R"} |-> cfg]]       \* only the initiator's Gateway has reconfigure()
-CanNewChan(st) == st.ch["L"]["d"] = Unborn
+CanNewChan(st) == st.ch["L"]["d"] = Unborn /\ st.cbk["R"]["c"] = Unborn /\ ~st.dead["L"]["c"]     \* d travels over c and is received there
 NewChan(st) == [st EXCEPT !.ch["L"]["d"] = st.gw["L"], !.ch["R"]["d"] = st.gw["R"]]
-CanChReconf(st, s, c) == st.ch[s][c] # Unborn
+CanChReconf(st, s, c) == st.ch[s][c] # Unborn /\ ~st.dead["L"][c] /\ ~st.dead["R"][c]
+CanSetCb(st, s, c) == st.ch[s][c] # Unborn /\ ~st.dead[s][c] /\ st.cbk[s][c] = Unborn
+SetCb(st, s, c) == [st EXCEPT !.cbk[s][c] = st.ch[s][c]]
+CanDrop(st, c) == st.ch["L"][c] # Unborn /\ ~st.dead["L"][c] /\ st.cbk["L"][c] # Unborn      \* only the initiator's end, only with a callback
+Drop(st, c) == [st EXCEPT !.dead["L"][c] = TRUE]
 ChReconf(st, s, c, cfg) == [st EXCEPT !.ch[s][c] = cfg, !.ch[Other(s)][c] = cfg]
 \* side s sends a probe on channel c: the pair it is decoded with
-CanProbe(st, s, c) == st.ch[s][c] # Unborn /\ st.ch[Other(s)][c] # Unborn
-DecodedWith(st, s, c) == st.ch[Other(s)][c]
+CanProbe(st, s, c) == st.ch[s][c] # Unborn /\ st.ch[Other(s)][c] # Unborn /\ ~st.dead[s][c]
+DecodedWith(st, s, c) == IF st.dead[Other(s)][c] THEN st.cbk[Other(s)][c] ELSE st.ch[Other(s)][c]
 =============================================================================
